@@ -42,9 +42,11 @@ Mro(sh, c) ==
 \* ---- Parameter types ----------------------------------------------------------------
 SubType(a, b) ==    \* issubclass(a, b)
   a = b \/ b = "Parameter" \/ (a = "Integer" /\ b = "Number")
+\* "Tuple": a type with a *computed* constraint -- its length, taken from the (merged) default when left unspecified
 HasSlot(ty, slot) == slot \notin {"bounds", "incl", "nmeta"} \/ ty \in {"Number", "Integer"}
 TypeDefault(ty, slot) ==
-  CASE slot = "default" -> (CASE ty = "Parameter" -> "None" [] ty = "Number" -> "0.0" [] ty = "Integer" -> "0" [] ty = "String" -> "")
+  CASE slot = "default" -> (CASE ty = "Parameter" -> "None" [] ty = "Number" -> "0.0" [] ty = "Integer" -> "0" [] ty = "String" -> ""
+                              [] ty = "Tuple" -> "t2")
     [] slot = "bounds" -> "None"
     [] slot = "incl" -> "ii"
     [] slot = "doc" -> "None"
@@ -66,6 +68,7 @@ ValidVal(ty, v, b, incl) ==
     [] ty = "Number" -> IsNumTok(v) /\ InBounds(v, b, incl)
     [] ty = "Integer" -> v \in {"0", "1", "5"} /\ InBounds(v, b, incl)
     [] ty = "String" -> v \in {"s", ""}
+    [] ty = "Tuple" -> v \in {"t2", "t3"}         \* (0, 0) and (1, 2, 3): any tuple, the length follows the default
 
 \* the constructor of a declaration validates its own (or the type's) default against its own bounds
 \* allow_None is computed by the constructor from the declaration alone: True if the default the
@@ -116,13 +119,23 @@ Res(c, slot) ==
 
 Bounds(c) == IF HasSlot(decl[c].ty, "bounds") THEN Res(c, "bounds") ELSE "None"
 Incl(c) == IF HasSlot(decl[c].ty, "incl") THEN Res(c, "incl") ELSE "ii"
+\* the length a Tuple Parameter enforces: computed by its own constructor from a default it specifies itself, else
+\* inherited from the nearest Tuple holder, else computed from the merged default
+TLen(v) == IF v = "t3" THEN 3 ELSE 2
+RECURSIVE LengthOf(_)
+LengthOf(c) ==
+  LET hs == SelectSeq(Holders(c), LAMBDA a : decl[a].ty = "Tuple") IN
+  IF decl[c].default # "U" THEN TLen(decl[c].default)
+  ELSE IF hs # <<>> THEN LengthOf(hs[1])
+  ELSE TLen(Res(c, "default"))
+ValidFor(c, v) == ValidVal(decl[c].ty, v, Bounds(c), Incl(c)) /\ (decl[c].ty = "Tuple" => TLen(v) = LengthOf(c))
 TypeChange(c) == \E i \in 1..Len(Holders(c)) : ~SubType(decl[Holders(c)[i]].ty, decl[c].ty)
 
 \* C11: creation of class c must fail exactly when ...
 Fails(c) ==
   LET v == Res(c, "default") IN
   IF v = "None" THEN TypeChange(c) /\ Res(c, "an") = "F" /\ decl[c].ty # "Parameter"
-  ELSE ~ValidVal(decl[c].ty, v, Bounds(c), Incl(c))
+  ELSE ~ValidFor(c, v)
 
 \* when the implementation re-validates the merged default: the Parameter type changed, or a
 \* validated attribute (default, bounds, allow_None, instantiate...) was specified by this class
@@ -147,7 +160,7 @@ RevalidationSufficient ==
 \* no class exists whose non-None default contradicts its own bounds or type
 NoContradiction ==
   \A c \in ClsSet(shape) : (Declares(c) /\ Exists(c) /\ Created(c) /\ Res(c, "default") # "None")
-        => ValidVal(decl[c].ty, Res(c, "default"), Bounds(c), Incl(c))
+        => ValidFor(c, Res(c, "default"))
 \* instantiate is monotone along the MRO
 InstantiateInherited ==
   \A c \in ClsSet(shape) : Declares(c) =>
